@@ -70,6 +70,7 @@ func (pj *internalParsedJson) findStructuralIndices() bool {
 
 		index := indexChan{}
 		offset := atomic.AddUint64(&pj.buffersOffset, 1)
+		verifPipe(pj, verifEvAcquire, offset, indexChan{})
 		index.indexes = &pj.buffers[offset%indexSlots]
 
 		// In case last index during previous round was stripped back, put it back
@@ -135,13 +136,17 @@ func (pj *internalParsedJson) findStructuralIndices() bool {
 			index.length -= 1
 		}
 
+		verifPipe(pj, verifEvSend, offset, index)
 		pj.indexChans <- index
+		verifPipe(pj, verifEvSent, offset, index)
 		indexTotal += index.length
 
 		buf = buf[processed:]
 		position -= processed
 	}
+	verifPipe(pj, verifEvTermSend, 0, indexChan{index: -1})
 	pj.indexChans <- indexChan{index: -1}
+	verifPipe(pj, verifEvTermSent, 0, indexChan{index: -1})
 
 	// a valid JSON file cannot have zero structural indexes - we should have found something
 	return error_mask == 0 && indexTotal > 0
